@@ -258,6 +258,10 @@ def snapshot(top, exclude=None):
     return snap
 
 
+class _Blocked(BaseException):
+    pass
+
+
 def run_real(case):
     k = json.dumps(case, sort_keys=True)
     if k in _cache:
@@ -282,13 +286,15 @@ def run_real(case):
         before = snapshot(top, exclude=dest)
         abs_before = {p: os.path.exists(p) for p in ['/tmp/c18_abs_%d' % i for i in range(8)]}
         def _alarm(signum, frame):
-            raise TimeoutError('untar_file blocked (special file opened?)')
+            # NOT an OSError (TimeoutError is one): tarfile swallows OSErrors at errorlevel 0 and would go on to the next blocking
+            # call; and the timer repeats, for the same reason
+            raise _Blocked('untar_file blocked (special file opened?)')
         old = signal.signal(signal.SIGALRM, _alarm)
-        signal.setitimer(signal.ITIMER_REAL, 10.0)
+        signal.setitimer(signal.ITIMER_REAL, 2.0, 2.0)
         try:
             untar_file(arch, dest)
             err = None
-        except TimeoutError:
+        except _Blocked:
             err = 'other:Blocked'
         except tarfile.FilterError as e:
             err = 'filter:' + type(e).__name__
